@@ -71,7 +71,7 @@ def _seq(items, closed, raise_at=None):
         try:
             for i, it in enumerate(items):
                 if raise_at is not None and i == raise_at:
-                    raise RuntimeError("sequence failed")
+                    raise rigs._env(RuntimeError("sequence failed"))
                 yield it
             return "done"
         finally:
@@ -197,7 +197,7 @@ class Recorder:
         for _ in range(d):
             await asyncio.sleep(0)
         if self.fail_at is not None and i == self.fail_at:
-            raise CommunicationError("gateway lost")
+            raise rigs._env(CommunicationError("gateway lost"))
         if command.response:
             return command.response(None)
 
@@ -382,7 +382,7 @@ def h_real_sci(ctx, which, bprog="seq-dt"):
             else:
                 fin[k] = "ok"
         out["fin"] = fin
-        out["locked"] = d.transaction_lock.locked() or p._tx_lock.locked()
+        out["locked"] = d.transaction_lock.locked() or rigs.held(p)["locks"] > 0
     st, r = call(vloop.run, main)
     tag = "%s-real" % which
     if st == "exc":
